@@ -202,8 +202,44 @@ func prelude(pkgName string) []byte {
 func harnessFiles(prop string) ([]string, error) {
 	pat := filepath.Join(harnessDir(), strings.ToLower(prop)+"_*.go")
 	m, err := filepath.Glob(pat)
+	if err != nil {
+		return nil, err
+	}
+	// a harness file of another property may declare "//verif:also <prop>": its checks decide part of this
+	// property too (e.g. the dial worker loop serves both C05 and C12)
+	all, _ := filepath.Glob(filepath.Join(harnessDir(), "c*_*.go"))
+	for _, f := range all {
+		b, rerr := os.ReadFile(f)
+		if rerr != nil {
+			continue
+		}
+		for _, line := range strings.Split(string(b), "\n") {
+			if !strings.HasPrefix(line, "//") {
+				if strings.HasPrefix(line, "package ") {
+					break
+				}
+				continue
+			}
+			if fs := strings.Fields(line); len(fs) >= 2 && fs[0] == "//verif:also" {
+				for _, p := range fs[1:] {
+					if strings.EqualFold(p, prop) && !slicesContains(m, f) {
+						m = append(m, f)
+					}
+				}
+			}
+		}
+	}
 	sort.Strings(m)
-	return m, err
+	return m, nil
+}
+
+func slicesContains(xs []string, x string) bool {
+	for _, y := range xs {
+		if y == x {
+			return true
+		}
+	}
+	return false
 }
 
 func (g *group) load(tier string) error {
@@ -410,6 +446,16 @@ func runJob(g *group, fn string, shard, nshard int, opt Options) *JobResult {
 	}
 	if opt.Tier == "thorough" {
 		eng.WitnessMax = 40
+	}
+	if nshard > 1 { // about the same number of natively validated path witnesses per harness, however it is sharded
+		per := 24 / nshard
+		if opt.Tier == "thorough" {
+			per = 80 / nshard
+		}
+		if per < 2 {
+			per = 2
+		}
+		eng.WitnessMax = per
 	}
 	eng.ShardIdx, eng.ShardN = shard, nshard
 	jr := &JobResult{Harness: fn, Dir: g.dir, Eng: eng, Sol: sol}
